@@ -23,6 +23,9 @@ ASSUMPTIONS = [
 
 WEIRD = ['input1', 'OUTPUTx', 'a@b', '0', 'vdd1', 'x y', 'Input_a', '_', 'n#', 'é',
          # names that look like the ones the library generates itself, numbers whose text order differs from their numeric order
+         # the empty label (legal: nothing validates labels), labels differing only in case or zero padding, labels with the
+         # characters the printer / the signatures / glob patterns use
+         '', 'l0', 'L00', 'a,b', 'a[0]', 'a0', 'x*', '?',
          'not_L0', 'new_L1', 'tmp_0', 'gate_0', 'big_or', 'pairwise_xor@xor_0', 'L0_', '10', '2', 'new_gate_NOT_for_L0', 'if', 'L1@L0']
 
 
